@@ -311,6 +311,19 @@ fn main() {
                 }
             }
         }
+        // handlers with many parameters (sync and async) and small response buffers
+        for x in &[&b"A:W 1,2,3,4,5\n"[..], b"A:W 1,2,3,4\n", b"A:N 5,'ab';W 1,2,3,4,5;Q? 9\n", b"A:M #12xy,'z'\n"] {
+            let mut m = Main;
+            let mut w: heapless::Vec<u8, 8> = heapless::Vec::new();
+            let o = run_on(&mut m, x, &mut w, Pattern::NONE);
+            hdr_execs += 1;
+            if o.end == End::Returned && o.allocs != 0 {
+                let f = vec![("engine", "run-many-parameters".to_string())];
+                out.groups.add("no-allocation", &f, (x.len(), x), || {
+                    (json!({"engine": "run", "input": hex(x)}), format!("run(\"{}\"): {} heap allocation calls", show(x), o.allocs))
+                });
+            }
+        }
         for f in [
             "CALIBRATION:TEMPERATURECOMPENSATION 7\n", "calibration:temperaturecompensation 7\n", "CAL:TC?\n", "cal:tc 1;TemperatureCompensation?\n",
             "Calibration:TemperatureCompensatio?\n", "CALIBRATION:TEMPERATURECOMPENSATIONS 1\n", "sour:volt:lev 1.5;level?\n", "MEASURE:DATA 'a',#11x,ON\n",
